@@ -75,6 +75,8 @@ func (o fsOp) token() string {
 		return fmt.Sprintf("%s,%s", o.K, hx(o.P))
 	case "close", "hstat":
 		return fmt.Sprintf("%s,%d", o.K, o.H)
+	case "reopen":
+		return "reopen," + o.P
 	case "hl":
 		var hs []string
 		for _, n := range strings.Split(o.D, ",") {
@@ -598,6 +600,9 @@ func (fsSuite) Run(raw json.RawMessage) []Step {
 	if c.Backend == "dirfs" && c.Kind == "dirfs-hl" {
 		return runDirfsHLCase(c)
 	}
+	if c.Backend == "dirfs" && c.Kind == "dirfs-reopen" {
+		return runDirfsReopenCase(c)
+	}
 	if c.Backend == "dirfs" {
 		return runDirfsCase(c)
 	}
@@ -952,6 +957,9 @@ func (fsSuite) Gen(r *Rng, i int, tier string) any {
 	}
 	if i%20 == 12 {
 		return genDirfsHLCase(r)
+	}
+	if i%20 == 2 {
+		return genDirfsReopenCase(r)
 	}
 	if i%10 == 3 {
 		c := genFsPkgCase(r)
